@@ -786,6 +786,54 @@ func (g *gen) gasLadderFor(fn string, sure bool) bool {
 	return true
 }
 
+// opGrowingMergeLadder: an SFT transfer to a holder ON THE SAME SHARD whose existing quantity makes the merged entry
+// LONGER than the transferred one (255 held + 1 arriving = 256: one more byte): the bytes copied - and charged - are those
+// of the merged entry. One rung below the exact charge the call is short of gas, at the exact charge it goes through.
+func (g *gen) opGrowingMergeLadder() bool {
+	x, ok := g.pickHeld(func(a []byte, h holding) bool { return isNFT(a, h) && !h.frozen && h.val.BitLen() < 40 && g.shardOf(a) >= 0 })
+	if !ok {
+		return false
+	}
+	b := g.otherThan(x.a, g.sameShard(x.a))
+	if b == nil {
+		return false
+	}
+	g.setRoles(x.a, x.h.tok, oracle.RoleNFTAddQty)
+	g.do(g.user(oracle.FnNFTAddQty, x.a, x.a, bigGas, x.h.tok, x.h.nb(), be(600)))
+	held := big.NewInt(0)
+	for _, h := range g.holdings(b) {
+		if bytes.Equal(h.tok, x.h.tok) && h.nonce == x.h.nonce {
+			held = h.val
+		}
+	}
+	// bring the destination's holding to 255 mod 256 (a transfer of 1 then crosses a byte boundary of the sum)
+	fill := new(big.Int).Sub(big.NewInt(255), new(big.Int).And(held, big.NewInt(255)))
+	if fill.Sign() > 0 {
+		g.do(g.user(oracle.FnNFTTransfer, x.a, x.a, bigGas, x.h.tok, x.h.nb(), fill.Bytes(), b))
+	}
+	args := [][]byte{x.h.tok, x.h.nb(), {1}, b}
+	if oracle.IsContract(b) && g.r.Intn(2) == 0 {
+		args = append(args, []byte("cb"), []byte{7})
+	}
+	sp := g.user(oracle.FnNFTTransfer, x.a, x.a, bigGas, args...)
+	if g.r.Intn(3) == 0 {
+		sp = g.user(oracle.FnMultiTransfer, x.a, x.a, bigGas, b, be(1), x.h.tok, x.h.nb(), []byte{1})
+	}
+	res := g.probe(sp, -1)
+	if !isOK(res) {
+		g.do(sp)
+		return true
+	}
+	c := charge(sp, res)
+	for _, gv := range []uint64{c - 1, c} {
+		sp.gas = gv
+		if r := g.do(sp); isOK(r) {
+			break
+		}
+	}
+	return true
+}
+
 // opGasWindow: multi transfer with 2-3 NFTs, gas in the narrow window around n*cost + sum of copy costs.
 func (g *gen) opGasWindow() bool {
 	x, ok := g.pickHeld(isNFT)
@@ -958,7 +1006,8 @@ func (g *gen) runGas() {
 		}
 		return true
 	}
-	g.loop([]wop{{50, g.opGasLadder}, {15, g.opGasWindow}, {8, g.opGasmapChange}, {8, g.opCallbackWithCall}, {5, g.opSKV}, {12, g.lateNetwork},
+	g.opGrowingMergeLadder()
+	g.loop([]wop{{50, g.opGasLadder}, {15, g.opGasWindow}, {4, g.opGrowingMergeLadder}, {8, g.opGasmapChange}, {8, g.opCallbackWithCall}, {5, g.opSKV}, {12, g.lateNetwork},
 		{4, opEpochUp}})
 }
 
